@@ -350,3 +350,86 @@ class LoadAsciiCatalogsDecreasing:
         if exc.name == 'ValueError':
             return []
         return None
+
+
+# ------------------------------------------------------------------ csep.load_catalog_forecast: plumbing around the loader
+LCF = 'csep.load_catalog_forecast'
+
+
+def _lcf_stubs(c, files):
+    """CatalogForecast and strptime_to_utc_datetime as recording stubs (the forecast class: C13; the time parser: C15)"""
+    calls = []
+
+    def forecast(**kw):
+        return Opaque('catalog_forecast', kwargs=kw)
+
+    def strp(s, format=None):
+        calls.append((s, format))
+        if not isinstance(s, str) or len(s) != 26:
+            raise PyRaise(builtin_exc('ValueError'), 'time data does not match format')
+        return Opaque('parsed_time', text=s)
+    c.ctx.ghost['global_overrides'] = {('csep', 'CatalogForecast'): Lam(forecast, 'CatalogForecast'),
+                                       ('csep', 'strptime_to_utc_datetime'): Lam(strp, 'strptime_to_utc_datetime')}
+    for f in files:
+        c.ctx.ghost.setdefault('files', {})[f] = ('symrows', 0)
+    return calls
+
+
+def lcf_case(fname, user_kwargs, exists=True, label=''):
+    class LCF_:
+        qualname = LCF
+        case = 'file %r%s%s' % (fname, '' if exists else ' (missing)', label)
+        properties = ('C12',)
+
+        def params(c):
+            calls = _lcf_stubs(c, [fname] if exists else [])
+            p = dict(fname=fname, _calls=calls)
+            p.update(user_kwargs)
+            return p
+
+        def ensures(c, r, fname, _calls, **kw):
+            yield 'an existing file gives a forecast object', z3.BoolVal(exists and isinstance(r, Opaque) and r.name == 'catalog_forecast')
+            if not (isinstance(r, Opaque) and r.name == 'catalog_forecast'):
+                return
+            k = r.kwargs
+            from pyvc.core import Func, BoundMethod
+            ld = k.get('loader')
+            is_ascii_loader = isinstance(ld, (Func, BoundMethod)) and getattr(getattr(ld, 'func', ld), 'qualname', '').endswith('CSEPCatalog.load_ascii_catalogs')
+            yield 'the forecast reads the given file with the CSEP ASCII catalog loader, native format, type ascii', z3.BoolVal(
+                k.get('filename') == fname and is_ascii_loader and k.get('catalog_format') == 'native' and k.get('catalog_type') == 'ascii')
+            import os as _os
+            base = _os.path.basename(fname.rstrip('/')).split('.')[0].split('_')
+            wellformed = len(base) >= 2 and len(base[1]) == 26
+            if 'name' in kw:
+                yield 'a name given by the caller is kept', z3.BoolVal(k.get('name') == kw['name'])
+            elif wellformed:
+                yield 'the name is the part of the file name before the first underscore', z3.BoolVal(k.get('name') == base[0])
+            else:
+                yield 'no name is made up for a file name without a time stamp', z3.BoolVal('name' not in k)
+            if 'start_time' in kw:
+                yield 'a start time given by the caller is kept', z3.BoolVal(k.get('start_time') is kw['start_time'])
+            elif wellformed:
+                st = k.get('start_time')
+                yield 'the start time is parsed from the second part of the file name with the documented format', z3.BoolVal(
+                    isinstance(st, Opaque) and st.name == 'parsed_time' and st.text == base[1]
+                    and any(cl == (base[1], '%Y-%m-%dT%H-%M-%S-%f') for cl in _calls))
+            else:
+                yield 'no start time is made up', z3.BoolVal('start_time' not in k)
+            other = {a: b for a, b in kw.items() if a not in ('name', 'start_time')}
+            yield 'other keyword arguments are passed on unchanged', z3.BoolVal(all(k.get(a) is b or k.get(a) == b for a, b in other.items())
+                                                                               and set(k) <= {'filename', 'loader', 'catalog_format', 'catalog_type', 'name', 'start_time'} | set(other))
+
+        def raises(c, exc, fname, _calls, **kw):
+            return [('only a missing file raises (FileNotFoundError)', z3.BoolVal(not exists and exc.name == 'FileNotFoundError'))]
+    LCF_.__name__ = 'LoadCatalogForecast_%d' % (abs(hash((fname, tuple(sorted(user_kwargs)), exists))) % 100000)
+    return LCF_
+
+
+_T = Opaque('caller_start_time')
+for _f, _kw, _ex, _lb in (('dir/ucerf3-landers_1992-06-28T11-57-34-140000.csv', {}, True, ''),
+                          ('dir/ucerf3-landers_1992-06-28T11-57-34-140000.csv', {'name': 'mine', 'apply_filters': True}, True, ', name and filter switch given'),
+                          ('dir/ucerf3-landers_1992-06-28T11-57-34-140000.csv', {'start_time': _T}, True, ', start time given'),
+                          ('forecast.csv', {'filter_spatial': True}, True, ', no time stamp in the name'),
+                          ('a_b.csv', {}, True, ', second part is not a time stamp'),
+                          ('dir/missing_1992-06-28T11-57-34-140000.csv', {}, False, '')):
+    REG.add(lcf_case(_f, _kw, _ex, _lb))
